@@ -286,7 +286,12 @@ func (g *Gen) expr(t *Type, depth int) Expr {
 	d := depth - 1
 	switch t.K {
 	case TInt:
-		switch g.R.Intn(16) {
+		switch g.R.Intn(17) {
+		case 16:
+			if g.F.Strings {
+				g.cover("str.len")
+				return MCall{Recv: Grouped{g.expr(Str, d)}, Name: "len", Ret: Int}
+			}
 		case 0, 1, 2, 3:
 			op := fw.Pick(g.R, []string{"+", "-", "*", "|", "&", "^", "+", "-"})
 			g.cover("int" + op)
@@ -373,7 +378,12 @@ func (g *Gen) expr(t *Type, depth int) Expr {
 		}
 		return Infix{"+", g.expr(Int, d), g.expr(Int, d)}
 	case TFloat:
-		switch g.R.Intn(8) {
+		switch g.R.Intn(9) {
+		case 8:
+			if g.F.Pow {
+				g.cover("float**")
+				return Infix{"**", g.smallFloat(d), FloatLit{fw.Pick(g.R, []float64{0, 1, 2, 3, 0.5, -1, -2})}}
+			}
 		case 0, 1, 2:
 			op := fw.Pick(g.R, []string{"+", "-", "*"})
 			g.cover("float" + op)
@@ -424,6 +434,10 @@ func (g *Gen) expr(t *Type, depth int) Expr {
 			return Prefix{"!", g.expr(Bool, d)}
 		case 7:
 			if g.F.Strings {
+				if g.R.Chance(1, 3) {
+					g.cover("str.contains")
+					return MCall{Recv: Grouped{g.expr(Str, d)}, Name: "contains", Args: []Expr{g.expr(Str, d)}, Ret: Bool}
+				}
 				op := fw.Pick(g.R, []string{"==", "!="})
 				g.cover("str" + op)
 				return Infix{op, g.expr(Str, d), g.expr(Str, d)}
@@ -466,7 +480,7 @@ func (g *Gen) expr(t *Type, depth int) Expr {
 		}
 		return Infix{"<", g.expr(Int, d), g.expr(Int, d)}
 	case TStr:
-		switch g.R.Intn(7) {
+		switch g.R.Intn(9) {
 		case 0, 1:
 			g.cover("str+")
 			return Infix{"+", g.expr(Str, d), g.expr(Str, d)}
@@ -485,6 +499,19 @@ func (g *Gen) expr(t *Type, depth int) Expr {
 			if e := g.callExpr(Str, d); e != nil {
 				return e
 			}
+		case 7:
+			if g.F.Lists {
+				if vs := g.listVars(); len(vs) > 0 {
+					v := fw.Pick(g.R, vs)
+					if v.t.Elem.K == TInt || v.t.Elem.K == TStr || v.t.Elem.K == TBool {
+						g.cover("list.join")
+						return MCall{Recv: Var{v.name, v.t}, Name: "join", Args: []Expr{StrLit{fw.Pick(g.R, []string{",", "", " - "})}}, Ret: Str}
+					}
+				}
+			}
+		case 8:
+			g.cover("str.repeat")
+			return MCall{Recv: Grouped{g.expr(Str, d)}, Name: "repeat", Args: []Expr{IntLit{int64(g.R.Intn(4))}}, Ret: Str}
 		}
 		return g.literal(Str)
 	case TList:
@@ -700,12 +727,27 @@ func (g *Gen) assignStmt(d int) Stmt {
 	target := Var{v.name, v.t}
 	switch v.t.K {
 	case TInt:
-		op := fw.Pick(g.R, []string{"=", "+=", "-=", "*=", "|=", "&=", "^=", "="})
+		op := fw.Pick(g.R, []string{"=", "+=", "-=", "*=", "|=", "&=", "^=", "=", "/=", "%=", "<<=", ">>=", "**="})
 		g.cover("assign-int" + op)
+		switch op {
+		case "/=", "%=":
+			return ExprStmt{Assign{op, target, Infix{"|", g.expr(Int, d), IntLit{1}}}}
+		case "<<=", ">>=":
+			return ExprStmt{Assign{op, target, Infix{"&", g.expr(Int, d), IntLit{63}}}}
+		case "**=":
+			if !g.F.Pow {
+				op = "+="
+			} else {
+				return ExprStmt{Assign{op, target, IntLit{int64(g.R.Intn(4))}}}
+			}
+		}
 		return ExprStmt{Assign{op, target, g.expr(Int, d)}}
 	case TFloat:
-		op := fw.Pick(g.R, []string{"=", "+=", "-=", "*="})
+		op := fw.Pick(g.R, []string{"=", "+=", "-=", "*=", "/="})
 		g.cover("assign-float" + op)
+		if op == "/=" {
+			return ExprStmt{Assign{op, target, FloatLit{fw.Pick(g.R, []float64{2, -0.5, 3, 1e10, 0.1})}}}
+		}
 		return ExprStmt{Assign{op, target, g.expr(Float, d)}}
 	case TBool:
 		g.cover("assign-bool")
@@ -715,7 +757,24 @@ func (g *Gen) assignStmt(d int) Stmt {
 		g.cover("assign-str" + op)
 		return ExprStmt{Assign{op, target, g.expr(Str, d)}}
 	case TList:
-		switch g.R.Intn(3) {
+		switch g.R.Intn(4) {
+		case 3:
+			switch g.R.Intn(3) {
+			case 0:
+				g.cover("list.push_front")
+				return ExprStmt{MCall{Recv: target, Name: "push_front", Args: []Expr{g.pureExpr(v.t.Elem, d)}, Ret: Null}}
+			default:
+				if g.F.Options {
+					name := fw.Pick(g.R, []string{"pop", "pop_front", "last"})
+					g.cover("list." + name)
+					o := g.fresh()
+					ot := OptOf(v.t.Elem)
+					g.declare(o, ot)
+					return Let{Name: o, Annot: ot, V: MCall{Recv: target, Name: name, Ret: ot}}
+				}
+			}
+			g.cover("list.push")
+			return ExprStmt{MCall{Recv: target, Name: "push", Args: []Expr{g.pureExpr(v.t.Elem, d)}, Ret: Null}}
 		case 0:
 			g.cover("list.push")
 			return ExprStmt{MCall{Recv: target, Name: "push", Args: []Expr{g.pureExpr(v.t.Elem, d)}, Ret: Null}}
